@@ -1,153 +1,550 @@
-"""C02 probes on the lexer side (outside the LR model):
+"""C02 probes on the lexer side (everything in front of / around the LR model: the token regexes, `Lexer.error`, the
+illegal-character message, the line bookkeeping, the actions that receive the raw token text).
 
-* `codepoint_cases`: texts holding one character of every code-point class (C0 / C1 controls, DEL, no-break space, line / paragraph
-  separators, combining marks, private use, non-characters, unassigned, lone surrogates, astral planes, look-alike quotes ...)
-  at the start, after a token, inside a literal, inside a comment, on a later line - the characters the lexers cannot
-  tokenise must give `LexError`, never an internal error while the message is built.
-* `blowup_probe`: catastrophic regex backtracking.  Python's `re` always terminates, but a pattern with overlapping
-  alternatives needs time exponential in the input; "parse_sql terminates" is read as "within a time that is reasonable
-  for the size of the input": a text of at most a few hundred characters that keeps the lexer busy for more than
-  `LIMIT_S` seconds is reported.  A running `re` match cannot be interrupted from Python, so the measurements run in a
-  child process that announces each case before it starts; the parent kills it on timeout and names the last case.
+1. `codepoint_probe`: one character of every Unicode general category (30, read from `unicodedata` on every run) and of
+   every *special class* (C0 / C1 controls, DEL, private use, non-characters, unassigned, lone surrogates, characters
+   without a name, Unicode white space, `str.splitlines` boundaries, zero-width / bidi controls, look-alike quotes and
+   dashes, non-ASCII digits, `isdigit`-only digits, characters whose case mapping changes the length or lands in ASCII,
+   full-width ASCII, astral planes ...) is put
+     * where it is the FIRST character no lexer rule accepts: start of text, after a token, glued into a word / number /
+       variable, after one or several newlines (LF and CRLF), after a token that spans lines, at the end of the text
+       (also in front of the trailing blanks / semicolons that parse_sql strips), doubled, followed by another odd one;
+     * LATER than an ASCII illegal character, or before it inside a literal / comment / on the previous line (the lines
+       the illegal-character message prints);
+     * INSIDE tokens (string literals, quoted names, variables, comments) of statements that parse and of statements with
+       a syntax error behind them (the text the ParsingException message re-assembles from the tokens),
+   for all three dialects.  Oracle (the property's own): `parse_sql` ends with an `ASTNode`, `ParsingException` or
+   `sly.lex.LexError` whose `str()` is a non-empty string; for a LexError `error_index` / `text` (the documented attributes
+   of the class) point into the stripped text.  The same texts go through `lexer.tokenize` directly (unstripped: the
+   end-of-text positions of the white-space classes): tokens or LexError, nothing else.  Every other exception type is a
+   failure; the replay is the (dialect, text) pair.
+2. `blowup_probe`: catastrophic regex backtracking.  Python's `re` always terminates, but a pattern with overlapping
+   alternatives needs time exponential in the input; "parse_sql terminates" is read as "in time polynomial in the size
+   of the input".  The verdict is a GROWTH RATIO, not an absolute time: a family `opener + unit * k` is measured at
+   growing k (minimum of several repeats, in a child process); it is reported when from one size to the next the time
+   grows by more than `RATIO` (>= 4 and far above cubic growth for the step) on two consecutive steps, or on the last
+   step measured, while being at least `FLOOR` times the time the same lexer needs for a harmless text of the same
+   length in the same process at the same moment (so a loaded machine scales both sides).  A running `re` match cannot
+   be interrupted from Python: the child announces every measurement before it starts, the parent kills it when nothing
+   arrives for `BACKSTOP_S` (the previous size of that family took < `STOP_S`, i.e. the step grew by > BACKSTOP_S/STOP_S)
+   and names the case.
 """
-import json, os, subprocess, sys, time, unicodedata
+import json, os, re, selectors, subprocess, sys, time, unicodedata
 
-LIMIT_S = 8.0
-
-CODEPOINTS = [
-    '\x00', '\x01', '\x08', '\x0b', '\x0c', '\x1b', '\x1f', '\x7f',                  # C0 controls, DEL
-    '\x80', '\x85', '\x8d', '\x91', '\x92', '\x9f',                                     # C1 controls (cp1252 quotes read as latin-1)
-    '\xa0', '\xad', ' ', ' ', '​', '‍', '﻿', '‮',       # nbsp, soft hyphen, separators, zero width, BOM, RLO
-    '́', '⃣',                                                                # combining marks
-    '‘', '’', '“', '”', '´', '＇', '＂',             # typographic / full-width quotes
-    '', '', '\U000f0000', '\U0010fffd',                                    # private use
-    '﷐', '￾', '￿', '\U0001fffe', '\U0010ffff',                          # non-characters
-    '͸', '԰', '\U000e0080', '\U0003fffd',                                    # unassigned
-    '\ud800', '\udbff', '\udc00', '\udfff',                                            # lone surrogates
-    '\U0001f600', '\U00020000', '中', 'é', 'ß', 'ﬁ',                # astral, CJK, letters with odd case maps
-    '#', '!', '^', '~', '$', '\\', '{', '}', '[', ']', '|', '&', ':',                   # ASCII the grammars may not know
-]
-
-SHAPES = [
-    '%s', 'select %s', 'select 1 %s', 'select a%sb from t', "select 'x%sy'", 'select "x%sy"', 'select `x%sy` from t',
-    'select 1 -- c %s\n', 'select 1 /* %s */', 'select 1\n\n  , %s from t', 'select 1;%s', '%sselect 1', 'select @%s',
-    "select 'a' %s 'b'", 'create model m from db (select %s) predict y', 'select 1 from t where a = %s and b = 2',
-    'select a\r\nfrom t\r\nwhere %s = 1',
-]
+# ------------------------------------------------------------------------------------------------ code point classes
+CATEGORIES = ['Lu', 'Ll', 'Lt', 'Lm', 'Lo', 'Mn', 'Mc', 'Me', 'Nd', 'Nl', 'No', 'Pc', 'Pd', 'Ps', 'Pe', 'Pi', 'Pf', 'Po',
+              'Sm', 'Sc', 'Sk', 'So', 'Zs', 'Zl', 'Zp', 'Cc', 'Cf', 'Cs', 'Co', 'Cn']
 
 
-def codepoint_cases(rng, quick):
-    cps = CODEPOINTS if not quick else rng.sample(CODEPOINTS, 28)
-    shapes = SHAPES if not quick else rng.sample(SHAPES, 9)
-    for c in cps:
-        for s in shapes:
-            yield s % c
-    # a few random unassigned / unnamed code points per run
-    n = 0
-    while n < (40 if quick else 400):
+def _r(a, b=None):
+    return (a, a if b is None else b)
+
+
+NONCHAR = [_r(0xFDD0, 0xFDEF)] + [_r(p * 0x10000 + 0xFFFE, p * 0x10000 + 0xFFFF) for p in range(17)]
+
+# special classes: name -> list of inclusive code point ranges
+SPECIAL = {
+    'c0-control': [_r(0x00, 0x08), _r(0x0B, 0x0C), _r(0x0E, 0x1F)],
+    'del': [_r(0x7F)],
+    'c1-control': [_r(0x80, 0x9F)],
+    'cp1252-quote-read-as-latin1': [_r(0x91, 0x94), _r(0x96, 0x97), _r(0x85)],
+    'private-use-bmp': [_r(0xE000, 0xF8FF)],
+    'private-use-astral': [_r(0xF0000, 0xFFFFD), _r(0x100000, 0x10FFFD)],
+    'non-character': NONCHAR,
+    'surrogate-high': [_r(0xD800, 0xDBFF)],
+    'surrogate-low': [_r(0xDC00, 0xDFFF)],
+    'surrogateescape-byte': [_r(0xDC80, 0xDCFF)],
+    'unicode-space': [_r(0x1C, 0x1F), _r(0x85), _r(0xA0), _r(0x1680), _r(0x2000, 0x200A), _r(0x2028, 0x2029), _r(0x202F),
+                      _r(0x205F), _r(0x3000)],
+    'splitlines-boundary': [_r(0x0B, 0x0C), _r(0x1C, 0x1E), _r(0x85), _r(0x2028, 0x2029)],
+    'zero-width-bidi-bom': [_r(0xAD), _r(0x61C), _r(0x180E), _r(0x200B, 0x200F), _r(0x202A, 0x202E), _r(0x2060, 0x2064),
+                            _r(0x2066, 0x2069), _r(0xFEFF), _r(0xFFF9, 0xFFFB)],
+    'look-alike-quote': [_r(0xB4), _r(0x2B9, 0x2BC), _r(0x2018, 0x201F), _r(0x2032, 0x2036), _r(0x275B, 0x275E), _r(0xFF02),
+                         _r(0xFF07), _r(0xFF40), _r(0x60), _r(0xAB), _r(0xBB)],
+    'look-alike-dash-operator': [_r(0x2010, 0x2015), _r(0x2212), _r(0xFF0D), _r(0xD7), _r(0xF7), _r(0x2260), _r(0x2264, 0x2265),
+                                 _r(0xFF1D), _r(0x2217), _r(0xFF0C), _r(0xFF1B), _r(0x37E)],
+    'non-ascii-decimal-digit': [_r(0x660, 0x669), _r(0x6F0, 0x6F9), _r(0x966, 0x96F), _r(0xFF10, 0xFF19), _r(0x1D7CE, 0x1D7FF)],
+    'isdigit-not-decimal': [_r(0xB2, 0xB3), _r(0xB9), _r(0x2070), _r(0x2074, 0x2079), _r(0x2080, 0x2089), _r(0x2460, 0x2468),
+                            _r(0x1369, 0x1371)],
+    'numeric-not-digit': [_r(0xBC, 0xBE), _r(0x2150, 0x215F), _r(0x2160, 0x2188), _r(0x3007), _r(0x3021, 0x3029), _r(0x4E00),
+                          _r(0x10107, 0x10133)],
+    'case-map-changes-length': [_r(0xDF), _r(0x130), _r(0x149), _r(0x1F0), _r(0x390), _r(0x3B0), _r(0x587), _r(0x1E96, 0x1E9A),
+                                _r(0x1E9E), _r(0xFB00, 0xFB06), _r(0xFB13, 0xFB17)],
+    'case-folds-into-ascii': [_r(0x17F), _r(0x212A), _r(0x130, 0x131)],
+    'fullwidth-ascii': [_r(0xFF01, 0xFF5E)],
+    'combining-variation': [_r(0x300, 0x36F), _r(0x20D0, 0x20F0), _r(0xFE00, 0xFE0F), _r(0xE0100, 0xE01EF), _r(0x1F3FB, 0x1F3FF)],
+    'astral-letter-symbol': [_r(0x1F600, 0x1F64F), _r(0x20000, 0x2A6DF), _r(0x1D400, 0x1D7CB), _r(0x10000, 0x1005D),
+                             _r(0x1F1E6, 0x1F1FF), _r(0xE0001), _r(0xE0020, 0xE007F)],
+    'last-code-points': [_r(0x10FFFD, 0x10FFFF), _r(0xFFFC, 0xFFFF), _r(0xFF), _r(0x100), _r(0xFFFF, 0x10000), _r(0x7FF, 0x800)],
+    'ascii-unknown-to-the-grammars': [_r(ord(c)) for c in '#!^~$\\{}[]|&:'],
+}
+
+_TABLE = {}
+
+
+def category_table():
+    """general category -> list of inclusive ranges, from the interpreter's Unicode database"""
+    if not _TABLE:
+        start, cur = 0, unicodedata.category(chr(0))
+        for cp in range(1, 0x110001):
+            c = unicodedata.category(chr(cp)) if cp < 0x110000 else None
+            if c != cur:
+                _TABLE.setdefault(cur, []).append((start, cp - 1))
+                start, cur = cp, c
+        nc = set(cp for a, b in NONCHAR for cp in range(a, b + 1))
+        un = []
+        for a, b in _TABLE['Cn']:
+            s = None
+            for cp in range(a, b + 1):
+                if cp in nc:
+                    if s is not None:
+                        un.append((s, cp - 1))
+                        s = None
+                elif s is None:
+                    s = cp
+            if s is not None:
+                un.append((s, b))
+        SPECIAL['unassigned-bmp'] = [r for r in un if r[1] < 0x10000]
+        SPECIAL['unassigned-astral'] = [r for r in un if r[0] >= 0x10000]
+    return _TABLE
+
+
+def _pick(rng, ranges):
+    a, b = rng.choice(ranges)
+    return rng.randint(a, b)
+
+
+def _restrict(ranges, lo, hi):
+    return [(max(a, lo), min(b, hi)) for a, b in ranges if max(a, lo) <= min(b, hi)]
+
+
+def class_samples(rng, extra):
+    """yields (class name, lead character, [further characters]); the lead of a category is its first non-ASCII member
+    (the same on every run), the lead of a special class and the further characters are drawn per run"""
+    tab = category_table()
+    for cat in CATEGORIES:
+        ranges = tab.get(cat, [])
+        non_ascii = _restrict(ranges, 0x80, 0x10FFFF)
+        if not non_ascii:
+            continue
+        more = [_pick(rng, non_ascii) for _ in range(extra)]
+        astral = _restrict(ranges, 0x10000, 0x10FFFF)
+        if astral:
+            more.append(_pick(rng, astral))
+        yield 'category-' + cat, chr(non_ascii[0][0]), [chr(c) for c in more]
+    for name in sorted(SPECIAL):
+        ranges = SPECIAL[name]
+        if not ranges:
+            continue
+        yield name, chr(_pick(rng, ranges)), [chr(_pick(rng, ranges)) for _ in range(extra)]
+    # characters without a name, whatever their category
+    un = []
+    while len(un) < extra + 1:
         cp = rng.randrange(0x80, 0x110000)
-        ch = chr(cp)
-        if unicodedata.name(ch, None) is None:
-            n += 1
-            yield rng.choice(SHAPES) % ch
+        if unicodedata.name(chr(cp), None) is None:
+            un.append(chr(cp))
+    yield 'unnamed', un[0], un[1:]
 
 
-OPENERS = ["'", '"', '`', "@'", '@"', '@`', '', '/*', '--', "select '", 'select "', "select 'a''", "x'", '0', '1.', 'a']
+# ------------------------------------------------------------------------------------------------ positions
+C = '\x00C\x00'   # placeholder
+
+FIRST = [   # the character is the first one no rule accepts (when it is not accepted itself)
+    ('start', C), ('start', C + ' select 1'), ('start', C + 'select 1'), ('start', '\t \r' + C), ('start', '  ' + C + C),
+    ('after-token', 'select 1 ' + C), ('after-token', 'select a ' + C + ' b from t'),
+    ('after-token', 'SELECT name FROM people WHERE name = ' + C + 'Ann' + C), ('after-token', 'select (' + C + ')'),
+    ('after-token', 'select a from t where b in (1, ' + C + ')'), ('after-token', 'select a from t order by ' + C),
+    ('glued', 'select a' + C + 'b from t'), ('glued', 'select 1' + C), ('glued', 'select 1.' + C + '5'),
+    ('glued', 'select @' + C), ('glued', 'select @a' + C), ("glued", "select 'a'" + C + "'b'"), ('glued', 'select a.' + C),
+    ('glued', 'select `a`' + C + ' from t'), ('glued', 'sel' + C + 'ect 1'), ('glued', 'select 1 /* c */' + C),
+    ('after-newline', 'select 1\n' + C), ('after-newline', 'select a,\n  ' + C + ' from t'),
+    ('after-newline', 'SELECT 1;\n\nSELECT ' + C + ' FROM t'), ('after-newline', 'select a\r\nfrom t\r\nwhere ' + C + ' = 1'),
+    ('after-newline', '\n\n' + C), ('after-newline', 'select a\nfrom t\nwhere a = 1\nand b = 2\nand ' + C + ' = 3\norder by a'),
+    ('after-newline', 'select a\n\n\n\n' + C + '\n\n\nfrom t'),
+    ('after-multiline-token', "select 'x\ny' , " + C), ('after-multiline-token', 'select /* x\ny\n */ ' + C),
+    ('after-multiline-token', 'select 1 -- note\n' + C), ('after-multiline-token', 'select `a\nb` ' + C),
+    ('after-multiline-token', 'select a is\nnot null, ' + C), ('after-multiline-token', "select @'a\nb', \"c\n\nd\"\n, " + C),
+    ('end-of-text', 'select 1 ' + C + ';'), ('end-of-text', 'select 1 ' + C + ' \n'), ('end-of-text', 'select 1\n' + C + '\n'),
+    ('end-of-text', 'select 1 from t where a = 1 and' + C), ('end-of-text', 'select 1 ' + C + ' ; ;\t\n;'),
+    ('end-of-text', "CREATE MODEL m FROM db (SELECT * FROM t) PREDICT y USING note = 'ok' " + C),
+    ('repeated', 'select ' + C + C), ('repeated', 'select ' + C + ' ' + C), ('repeated', C + '\n' + C),
+    ('repeated', 'select ' + C + '\x92'), ('repeated', 'select ' + C + ' from t'), ('repeated', 'select ' + C + '#'),
+]
+LATER = [   # an ASCII illegal character comes first; the character is in the text around it (the lines the message prints)
+    ('after-illegal', 'select # ' + C), ('after-illegal', 'select #' + C), ('after-illegal', 'select 1 #\n' + C),
+    ('after-illegal', 'select \x00' + C + ' from t'),
+    ('same-line-before', "select 'x" + C + "y' #"), ('same-line-before', 'select "x' + C + 'y" #'),
+    ('same-line-before', 'select `x' + C + 'y` #'), ('same-line-before', 'select /* ' + C + ' */ 1 #'),
+    ('same-line-before', "select @'a" + C + "' #"), ('same-line-before', "select '" + C + "' as `" + C + "` from t where # = 1"),
+    ('previous-line', 'select 1 -- ' + C + '\n#'), ('previous-line', "select 'x" + C + "y',\n #"),
+    ('previous-line', "select '" + C + "\n" + C + "' #"), ('previous-line', 'select /* ' + C + '\n' + C + ' */\n 1,\n # from t'),
+    ('previous-line', 'select `' + C + '`\r\n, #'),
+]
+INSIDE = [   # the character is inside a token: statement parses or a syntax error follows (ParsingException text)
+    ('in-literal', "select 'x" + C + "y'"), ('in-literal', 'select "x' + C + 'y"'), ('in-literal', "select '" + C + "'"),
+    ('in-literal', "select * from t where a = '" + C + "' and b = \"" + C + '"'), ('in-literal', "select '" + C + "' 'b'"),
+    ('in-literal', "select '\\" + C + "'"), ('in-literal', "select 'a''" + C + "'"), ('in-literal', "insert into t values ('" + C + "')"),
+    ('in-literal', "select * from t limit '" + C + "'"), ('in-literal', "set names '" + C + "'"),
+    ('in-literal', "create model m predict y using k = '" + C + "'"), ('in-literal', "select a from t where a like '%" + C + "%'"),
+    ('in-name', 'select `x' + C + 'y` from t'), ('in-name', 'select 1 as `' + C + '`'), ('in-name', 'use `' + C + '`'),
+    ('in-name', 'select * from `' + C + '`.`' + C + '`'), ('in-name', 'select cast(a as `' + C + '`)'),
+    ('in-name', 'select `' + C + '`(1)'), ('in-name', 'select "' + C + '".* from t'),
+    ('in-variable', "select @'a" + C + "'"), ('in-variable', 'select @`a' + C + '`'), ('in-variable', 'select @@"a' + C + '"'),
+    ('in-comment', 'select 1 /* ' + C + ' */'), ('in-comment', 'select 1 -- ' + C), ('in-comment', 'select 1 -- ' + C + '\n'),
+    ('in-comment', '/* ' + C + ' */'), ('in-comment', '-- ' + C + '\nselect 1'),
+    ('before-syntax-error', "select 'x" + C + "y' from from"), ('before-syntax-error', "select 'x" + C + "y',\n 1 from from t"),
+    ('before-syntax-error', 'select `x' + C + 'y` `z` `w`'), ('before-syntax-error', "select '" + C + "\n" + C + "' from"),
+    ('before-syntax-error', "select '" + C + "' from t where"), ('before-syntax-error', 'select /* ' + C + ' */ from'),
+    ('before-syntax-error', "select @'a" + C + "' @'b" + C + "'"), ('before-syntax-error', '`' + C + '`'),
+    ('before-syntax-error', "select a from t where a = '" + C + "'\n\nand and"),
+]
+SHAPES = [('first', k, s) for k, s in FIRST] + [('later', k, s) for k, s in LATER] + [('inside', k, s) for k, s in INSIDE]
+
+
+def safe(s):
+    """text that can be written as UTF-8 (lone surrogates as \\udXXX escapes)"""
+    return s.encode('utf-8', 'backslashreplace').decode('utf-8') if isinstance(s, str) else s
+
+
+def _describe(ch):
+    return 'U+%04X %s %s' % (ord(ch), unicodedata.category(ch), unicodedata.name(ch, '<unnamed>'))
+
+
+_LEX = {}
+
+
+def _lexer(dialect):
+    if dialect not in _LEX:
+        from mindsdb_sql import get_lexer_parser
+        _LEX[dialect] = get_lexer_parser(dialect)[0]
+    return _LEX[dialect]
+
+
+def _shape_of(msg):
+    """message with the character / position specific parts blanked (one class per defect, not per character)"""
+    return re.sub(r'N+', 'N', re.sub(r"\\[uUx][0-9a-fA-F]+|\d+|[^\x20-\x7e]", 'N', msg))
+
+
+def _crash(e, dialect, text, stage):
+    from tools.props import c02
+    s = c02.site_of(e)
+    try:
+        m = c02.msg_of(e)
+    except Exception as e2:
+        m = '<str() of the exception raised %s>' % type(e2).__name__
+    return dict(desc='%s raised %s (%s) in %s:%s' % (stage, s['exc'], m[:80], s['file'], s['func']), site=s, msg=m,
+                **{'class': '%s/%s/%s/%s' % (s['exc'], s['file'], s['func'], _shape_of(m)[:60])})
+
+
+def _bad_error(e, stripped):
+    """the documented shape of the two error types: a non-empty message; LexError.error_index / .text locate the character"""
+    from sly.lex import LexError
+    try:
+        m = str(e)
+    except Exception as e2:
+        return 'str() of the %s raised %s: %s' % (type(e).__name__, type(e2).__name__, e2)
+    if not isinstance(m, str) or m == '':
+        return 'the %s has an empty message' % type(e).__name__
+    if isinstance(e, LexError) and stripped is not None:
+        i, t = getattr(e, 'error_index', None), getattr(e, 'text', None)
+        if not isinstance(i, int) or isinstance(i, bool) or not 0 <= i < len(stripped) or t != stripped[i:]:
+            return 'LexError.error_index=%r / .text=%r do not locate a character of the text (length %d)' % (
+                i, t if t is None else t[:20], len(stripped))
+    return None
+
+
+def probe_text(dialect, text):
+    """the oracle of this module on one (dialect, text); returns a failure dict or None"""
+    from mindsdb_sql import parse_sql
+    from mindsdb_sql.exceptions import ParsingException
+    from mindsdb_sql.parser.ast.base import ASTNode
+    from sly.lex import LexError
+    f, stripped, drained = None, re.sub(r'[\s;]+$', '', text), True
+    try:
+        r = parse_sql(text, dialect)
+        if not isinstance(r, ASTNode):
+            f = dict(desc='parse_sql returned a non-tree value %r' % type(r).__name__, site=dict(exc='non-tree', file='', func=''),
+                     **{'class': 'non-tree'})
+    except (ParsingException, LexError) as e:
+        drained = isinstance(e, LexError)
+        why = _bad_error(e, stripped)
+        if why:
+            f = dict(desc='parse_sql: ' + why, site=dict(exc='bad-error-object', file='', func=type(e).__name__), msg=why,
+                     **{'class': 'bad-error-object/%s/%s' % (type(e).__name__, _shape_of(re.sub(r"=.*? (?=/|do )", '=N ', why))[:50])})
+    except Exception as e:
+        f = _crash(e, dialect, text, 'parse_sql')
+    if f is None and (stripped != text or not drained):
+        # the lexer alone on the unstripped text: the end-of-text positions of the classes parse_sql strips, and the rest of a
+        # text whose parse stopped at a syntax error (when the parse ended with a tree or a LexError the lexer has already
+        # been driven over exactly this text)
+        try:
+            for tok in _lexer(dialect).tokenize(text):
+                if not (isinstance(tok.type, str) and isinstance(tok.value, str) and isinstance(tok.index, int)
+                        and isinstance(tok.lineno, int)):
+                    f = dict(desc='lexer.tokenize yielded a malformed token %r' % (tok,), site=dict(exc='bad-token', file='', func=''),
+                             **{'class': 'bad-token'})
+                    break
+        except LexError as e:
+            why = _bad_error(e, text)
+            if why:
+                f = dict(desc='lexer.tokenize: ' + why, site=dict(exc='bad-error-object', file='', func='LexError'), msg=why,
+                         **{'class': 'bad-error-object/tokenize/%s' % _shape_of(re.sub(r"=.*? (?=/|do )", '=N ', why))[:50]})
+        except Exception as e:
+            f = _crash(e, dialect, text, 'lexer.tokenize')
+            f['class'] = 'tokenize/' + f['class']
+    if f is None:
+        return None
+    f = {k: safe(v) for k, v in f.items()}
+    f.update(dialect=dialect, probe='lex-codepoint', text=safe(text), text_json=json.dumps(text))
+    return f
+
+
+def codepoint_probe(chk, dialects, quick, kf_match):
+    from tools.harness import common
+    rng = common.rng_for(chk.seed, 'C02/codepoints')
+    dist, n, nfail = {}, 0, 0
+    for cname, lead, more in class_samples(rng, 2 if quick else 12):
+        plan = [(lead, SHAPES)]
+        for ch in more:
+            if quick:
+                plan.append((ch, rng.sample(FIRST_SHAPES, 5) + rng.sample(OTHER_SHAPES, 4)))
+            else:
+                plan.append((ch, SHAPES))
+        for ch, shapes in plan:
+            for pos, kind, shape in shapes:
+                text = shape.replace(C, ch)
+                for d in dialects:
+                    chk.count((d, 'cp', text))
+                    n += 1
+                    try:
+                        with common.time_limit(60):
+                            f = probe_text(d, text)
+                    except common.HangDetected:
+                        f = dict(desc='parse_sql / lexer.tokenize did not return within 60 s (hang)', dialect=d, probe='lex-codepoint',
+                                 text=safe(text), text_json=json.dumps(text), site=dict(exc='hang', file='', func='tokenize'),
+                                 msg='hang', **{'class': 'hang/lexer'})
+                    key = '%s/%s/%s' % (d, pos, 'crash' if f else 'ok')
+                    dist[key] = dist.get(key, 0) + 1
+                    if f:
+                        nfail += 1
+                        f.update(char=_describe(ch), char_class=cname, position='%s/%s' % (pos, kind))
+                        chk.classify(f, kf_match)
+                        chk.fail(f)
+    return dict(cases=n, failures=nfail, classes=len(CATEGORIES) + len(SPECIAL) + 1, shapes=len(SHAPES), distribution=dist)
+
+
+FIRST_SHAPES = [s for s in SHAPES if s[0] == 'first']
+OTHER_SHAPES = [s for s in SHAPES if s[0] != 'first']
+
+
+# ------------------------------------------------------------------------------------------------ regex blow-up
+OPENERS = ["'", '"', '`', "@'", '@"', '@`', '', '/*', '--', "select '", 'select "', "select 'a''", "x'", '0', '1.', 'a', 'is', 'not',
+           'partition']
 UNITS = ['\\\\', '\\', "''", '""', "\\'", '\\"', '``', "'\\", 'a', '1', '1.', '.1', '$', '_', '@', '*/', '/*', '-', '\\a', "\\''", ' ',
-         '\n', '\\\n', 'e', '1e', '0x']
-SIZES = (14, 20, 26, 32)
+         '\n', '\\\n', 'e', '1e', '0x', '\xa0', 'é', '\t ', ' \n']
+SIZES = (12, 16, 20, 24, 28, 32, 40, 48, 64)
+QUICK_SIZES = (12, 16, 20, 24, 28, 32)   # steps of 4 units: a 2^k family grows 16x per step, never from < STOP_S to > BACKSTOP_S
+RATIO = 4.0          # growth of the time from one size to the next that counts as a blow-up (sizes grow by <= 1.5x)
+FLOOR = 100.0        # ... when the time is also this many times the time for a harmless text of the same length
+STOP_S = 0.3         # a family is not measured at larger sizes once one measurement took this long
+BACKSTOP_S = 60.0    # silence after which the child is killed
 
 CHILD = r'''
 import sys, time, json
 sys.path.insert(0, %(repo)r)
 from mindsdb_sql import get_lexer_parser
-cases = json.load(open(%(cases)r))
-lexers = {}
-for d, text in cases:
-    if d not in lexers:
-        lexers[d] = get_lexer_parser(d)[0]
-    print('START ' + json.dumps([d, text]), flush=True)
-    t = time.time()
+job = json.load(open(%(cases)r))
+lexers, ref = {}, {}
+def lex(d, text):
+    t = time.perf_counter()
     try:
         for _ in lexers[d].tokenize(text):
             pass
     except Exception:
         pass
-    print('DONE %%.4f' %% (time.time() - t), flush=True)
+    return time.perf_counter() - t
+def best(d, text, always=False, floor=0.0):
+    # noise only ever adds time: one low measurement is conclusive, a high one is repeated and the minimum kept
+    t = lex(d, text)
+    n = 1
+    while n < 3 and t < 0.05 and (always or t >= floor):
+        t = min(t, lex(d, text))
+        n += 1
+    return t
+for d, o, u in job['families']:
+    if d not in lexers:
+        lexers[d] = get_lexer_parser(d)[0]
+        lex(d, 'select a from t')
+    for k in job['sizes']:
+        text = o + u * k
+        if len(text) > 400:
+            break
+        if (d, len(text)) not in ref:
+            ref[d, len(text)] = best(d, ('ab ' * len(text))[:len(text)], always=True)
+        r = ref[d, len(text)]
+        print('START ' + json.dumps([d, o, u, k]), flush=True)
+        t = best(d, text, floor=5 * r)
+        print('DONE %%.7f %%.7f' %% (t, r), flush=True)
+        if t > job['stop']:
+            break
+print('END', flush=True)
 '''
 
 
-def blowup_probe(chk, dialects, quick, max_fail=3):
-    """returns list of failures (dialect, text, seconds or None for killed)"""
+def step_limit(len1, len2):
+    return max(RATIO, 1.5 * (float(len2) / max(len1, 1)) ** 3)
+
+
+def verdict(points):
+    """points: [(k, length, seconds or None when killed, harmless seconds)] of one family, growing k.
+    Returns (k1, k2, ratio, floor ratio) of the step that shows the blow-up, or None"""
+    hits = []
+    for (k1, l1, t1, r1), (k2, l2, t2, r2) in zip(points, points[1:]):
+        if t2 is None:
+            hits.append((k1, k2, float('inf'), float('inf')))
+            continue
+        ratio = t2 / max(t1, 1e-7)
+        if ratio >= step_limit(l1, l2) and t2 >= FLOOR * max(r2, 1e-6):
+            hits.append((k1, k2, round(ratio, 1), round(t2 / max(r2, 1e-6), 1)))
+    for h in hits:
+        later = [x for x in hits if x[0] == h[1]]
+        if later or h[1] == points[-1][0]:
+            return h
+    return None
+
+
+def measure(families, sizes, stop_after=None):
+    """runs the child over the families; returns {(d, o, u): points} and the number of measurements.
+    stop_after: give up once that many families show a blow-up (keeps a failing run short)"""
     from tools import framework
-    cases = []
-    for d in dialects:
-        for o in OPENERS:
-            for u in UNITS:
-                for k in (SIZES if not quick else SIZES[1::2]):
-                    text = o + u * k
-                    if len(text) <= 400:
-                        cases.append((d, text))
-    tmp = os.path.join(framework.LEAN, '.lake', 'c02_blowup_cases.json')
+    tmp = os.path.join(framework.LEAN, '.lake', 'c02_blowup_cases_%d.json' % os.getpid())
     os.makedirs(os.path.dirname(tmp), exist_ok=True)
-    failures, measured, slowest = [], 0, (0.0, None)
-    rest = cases
-    while rest and len(failures) < max_fail:
-        json.dump(rest, open(tmp, 'w'))
-        p = subprocess.Popen([sys.executable, '-c', CHILD % dict(repo=framework.REPO, cases=tmp)], stdout=subprocess.PIPE,
-                             stderr=subprocess.DEVNULL, bufsize=0, env=dict(os.environ, PYTHONHASHSEED='0'))
-        import selectors
-        sel = selectors.DefaultSelector()
-        sel.register(p.stdout, selectors.EVENT_READ)
-        cur, started, idx, killed, buf, eof = None, None, 0, False, b'', False
-        while not eof and not killed:
-            # own line buffer: select() must never be asked while complete lines are still waiting in a Python-side buffer
-            while b'\n' not in buf:
-                timeout = 120 if cur is None else max(0.1, LIMIT_S - (time.time() - started))
-                if not sel.select(timeout):
-                    if cur is not None:
+    out, measured, rest, hits, last = {}, 0, list(families), 0, None
+    try:
+        while rest:
+            json.dump(dict(families=rest, sizes=list(sizes), stop=STOP_S), open(tmp, 'w'))
+            p = subprocess.Popen([sys.executable, '-c', CHILD % dict(repo=framework.REPO, cases=tmp)], stdout=subprocess.PIPE,
+                                 stderr=subprocess.DEVNULL, bufsize=0, env=dict(os.environ, PYTHONHASHSEED='0'))
+            sel = selectors.DefaultSelector()
+            sel.register(p.stdout, selectors.EVENT_READ)
+            cur, killed, buf, eof, ended = None, False, b'', False, False
+            while not eof and not killed and not ended:
+                # own line buffer: select() must never be asked while complete lines are still waiting in a Python-side buffer
+                while b'\n' not in buf:
+                    if not sel.select(BACKSTOP_S if cur is not None else 4 * BACKSTOP_S):
                         p.kill()
-                        failures.append(dict(dialect=cur[0], text=cur[1], seconds=None))
                         killed = True
-                    else:
-                        p.kill()
+                        break
+                    chunk = os.read(p.stdout.fileno(), 65536)
+                    if not chunk:
                         eof = True
+                        break
+                    buf += chunk
+                if killed or (eof and b'\n' not in buf):
                     break
-                chunk = os.read(p.stdout.fileno(), 65536)
-                if not chunk:
-                    eof = True
-                    break
-                buf += chunk
-            if killed or (eof and b'\n' not in buf):
-                break
-            line, buf = buf.split(b'\n', 1)
-            line = line.decode('utf-8', 'replace')
-            if line.startswith('START '):
-                cur, started = json.loads(line[6:]), time.time()
-            elif line.startswith('DONE '):
-                s_ = float(line[5:])
-                measured += 1
-                idx += 1
-                if s_ > slowest[0]:
-                    slowest = (s_, cur)
-                if s_ > LIMIT_S / 2:
-                    failures.append(dict(dialect=cur[0], text=cur[1], seconds=s_))
-                cur = None
-        p.wait()
-        if killed:
-            # skip every remaining case with the same opener + unit (they only get worse), continue with the others
-            d0, t0 = failures[-1]['dialect'], failures[-1]['text']
-            rest = [c for c in rest[idx + 1:] if not (c[0] == d0 and _family(c[1]) == _family(t0))]
-        else:
-            rest = []
-    return failures, measured, slowest
+                line, buf = buf.split(b'\n', 1)
+                line = line.decode('utf-8', 'replace')
+                if line.startswith('START '):
+                    cur = json.loads(line[6:])
+                    if last is not None and last != tuple(cur[:3]) and verdict(out.get(last, [])):
+                        hits += 1
+                        if stop_after is not None and hits >= stop_after:
+                            p.kill()
+                            p.wait()
+                            sel.close()
+                            return out, measured
+                    last = tuple(cur[:3])
+                elif line.startswith('DONE ') and cur is not None:
+                    t_, r_ = line[5:].split()
+                    d, o, u, k = cur
+                    out.setdefault((d, o, u), []).append((k, len(o + u * k), float(t_), float(r_)))
+                    measured += 1
+                    cur = None
+                elif line == 'END':
+                    ended = True
+            p.wait()
+            sel.close()
+            if killed and cur is not None:
+                d, o, u, k = cur
+                out.setdefault((d, o, u), []).append((k, len(o + u * k), None, 0.0))
+                hits, last = hits + 1, None
+                if stop_after is not None and hits >= stop_after:
+                    return out, measured
+                i = rest.index([d, o, u]) if [d, o, u] in rest else rest.index((d, o, u))
+                rest = rest[i + 1:]
+            elif ended:
+                rest = []
+            else:
+                raise RuntimeError('blow-up child ended unexpectedly (killed=%s eof=%s)' % (killed, eof))
+    finally:
+        if os.path.exists(tmp):
+            os.remove(tmp)
+    return out, measured
 
 
-def _family(text):
-    for o in sorted(OPENERS, key=len, reverse=True):
-        if text.startswith(o):
-            body = text[len(o):]
-            for u in sorted(UNITS, key=len, reverse=True):
-                if body and body == u * (len(body) // len(u)) and len(body) % len(u) == 0:
-                    return (o, u)
-    return text[:6]
+def _blow_failure(d, o, u, points, hit):
+    k1, k2, ratio, fl = hit
+    text = o + u * k2
+    tab = ', '.join('k=%d: %s' % (k, 'killed after %ds' % BACKSTOP_S if t is None else '%.4fs (harmless text of that length %.5fs)' % (t, r))
+                    for k, l, t, r in points)
+    why = ('lexing time of %r + %r * k grows by a factor %s from k=%d to k=%d (%s times a harmless text of the same length): '
+           'exponential regex backtracking; %s' % (o, u, ratio, k1, k2, fl, tab))
+    return dict(desc=safe(why), dialect=d, text=safe(text), text_json=json.dumps(text), probe='lex-blowup', family=[d, o, u],
+                site=dict(exc='regex-blowup', file='', func=''), msg=safe(why), points=points,
+                **{'class': 'regex-blowup/%s' % json.dumps([o, u])})
+
+
+def blowup_probe(chk, dialects, quick, kf_match, max_fail=6):
+    fams = [[d, o, u] for d in dialects for o in OPENERS for u in UNITS]
+    out, measured = measure(fams, QUICK_SIZES if quick else SIZES, stop_after=max_fail if quick else None)
+    nfail, worst = 0, (0.0, None)
+    for (d, o, u), points in out.items():
+        chk.count((d, 'blowup', o, u))
+        for k, l, t, r in points:
+            if t is not None and r > 0 and t / r > worst[0]:
+                worst = (round(t / r, 1), [d, o, u, k, round(t, 5)])
+        hit = verdict(points)
+        if hit:
+            nfail += 1
+            if nfail <= max_fail:
+                f = _blow_failure(d, o, u, points, hit)
+                chk.classify(f, kf_match)
+                chk.fail(f)
+    return dict(families=len(fams), measurements=measured, failures=nfail, worst_vs_harmless=worst, ratio=RATIO, floor=FLOOR)
+
+
+# ------------------------------------------------------------------------------------------------ entry points
+def run(chk, dialects, kf_match):
+    """both probes; called by tools/props/c02.py.  A probe that cannot run at all is a broken obligation (never silently skipped)"""
+    quick = chk.tier == 'quick' and not chk.broken()
+    t0 = time.time()
+    try:
+        cp = codepoint_probe(chk, dialects, quick, kf_match)
+        cp['wall_s'] = round(time.time() - t0, 1)
+    except Exception as e:
+        import traceback
+        cp = dict(error=traceback.format_exc()[-800:])
+        chk.oblige('probe:lex-codepoints', 'probe', False, 'probe failed to run: %s' % cp['error'])
+    t1 = time.time()
+    try:
+        bl = blowup_probe(chk, dialects, quick, kf_match)
+        bl['wall_s'] = round(time.time() - t1, 1)
+    except Exception as e:
+        import traceback
+        bl = dict(error=traceback.format_exc()[-800:])
+        chk.oblige('probe:lex-blowup', 'probe', False, 'probe failed to run: %s' % bl['error'])
+    chk.samples.append(dict(lex_codepoint_probe=cp, lex_blowup_probe=bl))
+    return cp, bl
+
+
+def replay_failure(f):
+    """re-run one failure of this module; returns the failure dict again or None"""
+    text = json.loads(f['text_json']) if 'text_json' in f else f['text']
+    if f.get('probe') == 'lex-blowup':
+        d, o, u = f['family']
+        out, _ = measure([[d, o, u]], SIZES)
+        points = out.get((d, o, u), [])
+        hit = verdict(points)
+        print('growth of the lexing time for %r + %r * k (%s): %s' % (o, u, d, [(k, t) for k, l, t, r in points]))
+        return _blow_failure(d, o, u, points, hit) if hit else None
+    return probe_text(f['dialect'], text)
